@@ -121,11 +121,15 @@ func c01Class(tree Tree, err error) string {
 	return fmt.Sprintf("%x/%d/%s", kinds, len(errs), msg)
 }
 
+// redirection-focused alphabet: left-hand fds, runs of redirection signs (valid and
+// malformed), fd sources and close markers, so that the error paths of Redir.parse are reached
+var c01Redir = []string{"a", "2", " ", "<", ">", "&", "-", "$x", "\n"}
+
 func TestVerifC01(t *testing.T) {
 	vk.Run(t, "C01", "exploration", func(c *vk.Ctx) {
 		nb := vk.Pick(c, 5, 6)
 		nt := vk.Pick(c, 4, 5)
-		c.Rule(fmt.Sprintf("every string of <=%d symbols over the 16-symbol byte alphabet %q and every string of <=%d tokens over the 35-token alphabet %q, length-lexicographic; class = (set of node kinds in the tree, number of errors, first error message); all cases with a distinct class count as distinct non-trivial", nb, c01Bytes, nt, c01Tokens))
+		c.Rule(fmt.Sprintf("every string of <=%d symbols over the 16-symbol byte alphabet %q and every string of <=%d tokens over the 35-token alphabet %q, and every string of <=7 (thorough 8) tokens over the redirection alphabet {a 2 space < > & - $x newline}, length-lexicographic; class = (set of node kinds in the tree, number of errors, first error message); all cases with a distinct class count as distinct non-trivial", nb, c01Bytes, nt, c01Tokens))
 		c.Assume("totality is observed as: Parse returns (a case running > 300 s is reported as non-termination) and does not panic")
 		run := func(alpha []string, n int) {
 			c.EnumSeqs(len(alpha), n, func(l *vk.Local, idx []int) {
@@ -148,5 +152,6 @@ func TestVerifC01(t *testing.T) {
 		}
 		run(c01Bytes, nb)
 		run(c01Tokens, nt)
+		run(c01Redir, vk.Pick(c, 7, 8))
 	})
 }
